@@ -25,28 +25,8 @@ def cases(draw, tier):
                            for p, it in M.iter_items(m)):
         # ... which exists only if the whole file is bound: a top namespace may cut it off
         opts = dict(opts, top=[])
-    if opts['top'] and opts['top'] != ['nosuch'] and draw(st.integers(0, 2)) == 0:
-        # a namespace on the path to (or equal to) the top namespace is opened twice: no
-        # submodule variable belongs to it, so both blocks must simply be bound
-        k = draw(st.integers(1, len(opts['top'])))
-        m = _split_block(draw, m, tuple(opts['top'][:k]))
+    m = draw(PC.reopen_top(m, opts))
     return (m, opts)
-
-
-def _split_block(draw, node, path):
-    """Cut the first block of namespace `path` into two adjacent blocks of the same name."""
-    content = list(node.content)
-    for i, it in enumerate(content):
-        if isinstance(it, M.Namespace) and it.name == path[0]:
-            if len(path) > 1:
-                content[i] = _split_block(draw, it, path[1:])
-            else:
-                n = len(it.content)
-                cut = draw(st.integers(1, n - 1)) if n >= 2 else draw(st.integers(0, n))
-                content[i:i + 1] = [M.Namespace(it.name, tuple(it.content[:cut])),
-                                    M.Namespace(it.name, tuple(it.content[cut:]))]
-            break
-    return replace(node, content=tuple(content))
 
 
 def check(case):
@@ -97,7 +77,7 @@ def features(case):
             f.add('top-missing')
     if opts['ignore']:
         f.add('ignore')
-    if _reopened(m):
+    if PC.reopened(m):
         f.add('top-path-reopened')
     if opts['boost']:
         f.add('boost')
@@ -123,12 +103,6 @@ def features(case):
         if isinstance(it, M.Typedef):
             f.add('typedef')
     return f
-
-
-def _reopened(node):
-    names = [it.name for it in node.content if isinstance(it, M.Namespace)]
-    return len(names) != len(set(names)) or any(
-        _reopened(it) for it in node.content if isinstance(it, M.Namespace))
 
 
 def from_replay(o):
